@@ -15,7 +15,8 @@ RULE = ('Seeded finite rules (7 frequencies subset, COUNT in {0,1,2,3,5,9,10,11,
         'far values; after / before / between / xafter with inc in {False, True} and those arguments; replace(**params) '
         'against a rule constructed from the merged keyword arguments.  Non-trivial = query whose list answer is not empty / '
         'None, or an index/slice with a negative or out-of-range member, or any query on a cached object; distinct = (object '
-        'kind, cache state at call time, query kind, argument class, length class).')
+        'kind, cache state at call time, query kind, argument class, length class).'
+        ' Further object states: a member added while an iterator is open (cached / uncached), and several early iterators drained after another consumer completed the cache (under a guard lock).')
 ASSUMPTIONS = ['L = list(rule) of a fresh uncached object is the reference sequence (its correctness is C01\'s / C10\'s subject)',
                'slice step 0 is outside "any indices"']
 MANIFEST = {
